@@ -813,6 +813,8 @@ UNITS = [
     ("context selection", ["CtxResume.lean"], lambda src: __import__("ctxresume2lean").generate(src)),
     ("await-protocol wrappers (coro_iter, coro_await, awaitmethod*, await_sync, syncfunction, aiter_sync)",
      ["Wrappers.lean"], lambda src: __import__("wrappers2lean").generate(src)),
+    ("condition variables", ["Cond.lean"], lambda src: __import__("cond2lean").generate(src)),
+    ("task_timeout", ["Timeout.lean"], lambda src: __import__("timeout2lean").generate(src)),
 ]
 
 
